@@ -19,6 +19,7 @@ import (
 // leaf certificates and precertificates (standard-library crypto/x509, ECDSA P-256).
 type MiniPKI struct {
 	RootDER, IntDER []byte
+	Int2DER         []byte // a second certificate for the same intermediate CA (same subject and key, other serial): an alternative path
 	rootCert        *x509.Certificate
 	rootKey         *ecdsa.PrivateKey
 	intCert         *x509.Certificate
@@ -55,6 +56,10 @@ func NewMiniPKI(at time.Time) *MiniPKI {
 		panic(err)
 	}
 	p.intCert, _ = x509.ParseCertificate(p.IntDER)
+	intT.SerialNumber = big.NewInt(3)
+	if p.Int2DER, err = x509.CreateCertificate(rand.Reader, intT, p.rootCert, &p.intKey.PublicKey, p.rootKey); err != nil {
+		panic(err)
+	}
 	return p
 }
 
